@@ -118,6 +118,10 @@ impl<'a, 'b> Ctx<'a, 'b> {
         let local_id = self.idents[self.local].id;
         let kind = what.split(' ').next().unwrap_or("").to_string();
         for (k, e, _) in after {
+            // every entry is checked in the step in which it appears or changes
+            if before.iter().any(|(k0, e0, _)| k0 == k && e0 == e) {
+                continue;
+            }
             if contactable(self.mode, e).is_none() {
                 self.failures.push(("C12".into(), format!("table entry is not contactable in IP mode {:?} (after {})", self.mode, kind)));
             }
@@ -448,7 +452,10 @@ pub fn run_case(idents: &[Ident], idx: u64, rng: &mut Rng, thorough: bool, hist:
                     }
                 }
             }
-            if !c.failures.is_empty() {
+            // keep one failure per description and go on: the later steps still exercise the model
+            let mut seen = BTreeSet::new();
+            c.failures.retain(|f| seen.insert(f.1.clone()));
+            if c.failures.len() > 6 {
                 break;
             }
         }
